@@ -544,6 +544,9 @@ func run(c *core.Ctx) error {
 	// ---- part A
 	r := &jrun.Runner{C: c, Ctx: ctx}
 	for _, sc := range scenarios(c) {
+		if err := r.Calibrate(sc); err != nil {
+			return err
+		}
 		bhs, res := sc.Run(c, true, false, 8)
 		if res == nil {
 			return nil
